@@ -1,10 +1,10 @@
 SPECIFICATION Spec
 CONSTANTS
   N = 2
-  Dir = "min"
-  MC = 2
-  Kinds = {"greedy_each", "greedy_pop", "extend_trim"}
-  FT <- FT1
+  Dir = "max"
+  MC = 3
+  Kinds = {"greedy_each", "greedy_pop", "extend_trim", "replace_all", "replace_trim", "shrink"}
+  FT <- FT2
   Dev = "none"
 INVARIANT Feasible
 INVARIANT ArgsOK
@@ -18,5 +18,4 @@ PROPERTY HistoryAppendOnly
 PROPERTY ElitistMonotone
 PROPERTY StepRefinesFrame
 PROPERTY Terminates
-VIEW view
 CHECK_DEADLOCK FALSE
